@@ -83,6 +83,8 @@ pub enum OpK {
     Flush { force: bool },
     /// fsync the log explicitly (what a periodic maintenance task would do)
     SyncWal,
+    /// tiered engines only: bulk load that bypasses the recent-write tier
+    BulkLoad { docs: Vec<(u64, Vec<u32>, Meta)> },
 }
 
 impl OpK {
@@ -97,10 +99,11 @@ impl OpK {
             OpK::Gap { .. } => "gap",
             OpK::Flush { .. } => "flush_hot_tier",
             OpK::SyncWal => "sync_wal",
+            OpK::BulkLoad { .. } => "bulk_load",
         }
     }
     pub fn is_write(&self) -> bool {
-        matches!(self, OpK::Insert { .. } | OpK::Delete { .. } | OpK::BatchDelete { .. } | OpK::UpdateMeta { .. })
+        matches!(self, OpK::Insert { .. } | OpK::Delete { .. } | OpK::BatchDelete { .. } | OpK::UpdateMeta { .. } | OpK::BulkLoad { .. })
     }
 }
 
@@ -291,6 +294,13 @@ impl Eng {
             (Eng::T(t), OpK::Flush { force }) => t.flush_hot_tier(*force).map(|_| ()),
             (Eng::B(_), OpK::Flush { .. }) => Ok(()),
             (e, OpK::SyncWal) => e.backend().sync_wal(),
+            (Eng::T(t), OpK::BulkLoad { docs }) => t.bulk_load_cold_tier(docs.iter().map(|(i, v, m)| (*i, unbits(v), to_hash(m))).collect()).map(|_| ()),
+            (Eng::B(b), OpK::BulkLoad { docs }) => {
+                for (i, v, m) in docs {
+                    let _ = b.insert(*i, unbits(v), to_hash(m));
+                }
+                Ok(())
+            }
             (_, OpK::Restart) | (_, OpK::Gap { .. }) => Ok(()),
         }
     }
@@ -311,6 +321,11 @@ pub fn model_apply(m: &mut Model, op: &OpK) {
                 m.remove(id);
             }
         }
+        OpK::BulkLoad { docs } => {
+            for (id, vec, meta) in docs {
+                m.insert(*id, (vec.clone(), meta.clone()));
+            }
+        }
         OpK::UpdateMeta { id, meta, merge } => {
             if let Some(d) = m.get_mut(id) {
                 if *merge {
@@ -326,22 +341,23 @@ pub fn model_apply(m: &mut Model, op: &OpK) {
     }
 }
 
-/// Expected stored vector for an input under a metric: the input for Euclidean; for Cosine/InnerProduct the
-/// input if its squared norm is inside [0.98,1.02], else x/|x| (checked within 4 ulp per lane by callers).
-pub fn expected_stored(metric: u8, input: &[f32]) -> (Vec<f32>, bool) {
+/// Which stored forms are acceptable for an input under a metric: the input itself (Euclidean; or squared
+/// norm inside [0.98, 1.02] for Cosine/InnerProduct) and/or its normalisation x/|x|. Close to the band edge an
+/// f32 sum of squares is not predictable from the f64 one, so both forms are accepted there.
+pub fn expected_stored(metric: u8, input: &[f32]) -> (bool, Option<Vec<f32>>) {
     if metric == 1 {
-        return (input.to_vec(), true);
+        return (true, None);
     }
     let ns: f64 = input.iter().map(|x| (*x as f64) * (*x as f64)).sum();
-    if (0.9801..=1.0199).contains(&ns) {
-        return (input.to_vec(), true);
-    }
-    if (0.9799..=1.0201).contains(&ns) {
-        // too close to the band edge for an f32 sum to be predictable: accept either form
-        return (input.to_vec(), false);
-    }
     let n = ns.sqrt();
-    (input.iter().map(|x| (*x as f64 / n) as f32).collect(), false)
+    let normalised: Option<Vec<f32>> = if ns > 0.0 && ns.is_finite() { Some(input.iter().map(|x| (*x as f64 / n) as f32).collect()) } else { None };
+    if (0.9805..=1.0195).contains(&ns) {
+        (true, None)
+    } else if (0.9795..=1.0205).contains(&ns) {
+        (true, normalised)
+    } else {
+        (false, normalised)
+    }
 }
 
 pub fn ulp_close(a: f32, b: f32, ulps: u32) -> bool {
@@ -361,20 +377,22 @@ pub fn ulp_close(a: f32, b: f32, ulps: u32) -> bool {
     (ia - ib).unsigned_abs() <= ulps as u64
 }
 
-/// Check that what the live engine stored for an insert is the expected (normalised) form; returns the pinned bits.
+/// Check that what the live engine stored for an insert is an acceptable form of the input; returns the pinned bits.
 pub fn pin_vector(metric: u8, input_bits: &[u32], stored: &[f32]) -> Result<Vec<u32>, String> {
     let input = unbits(input_bits);
-    let (exp, exact) = expected_stored(metric, &input);
-    if stored.len() != exp.len() {
-        return Err(format!("stored dimension {} != {}", stored.len(), exp.len()));
+    let (raw_ok, normalised) = expected_stored(metric, &input);
+    if stored.len() != input.len() {
+        return Err(format!("stored dimension {} != {}", stored.len(), input.len()));
     }
-    let ok_norm = stored.iter().zip(exp.iter()).all(|(a, b)| if exact { a.to_bits() == b.to_bits() } else { ulp_close(*a, *b, 8) });
-    let ok_raw = !exact && stored.iter().zip(input.iter()).all(|(a, b)| a.to_bits() == b.to_bits());
-    if ok_norm || ok_raw {
-        Ok(bits(stored))
-    } else {
-        Err(format!("stored vector {:?} is neither the input nor its normalisation {:?}", stored, exp))
+    if raw_ok && stored.iter().zip(input.iter()).all(|(a, b)| a.to_bits() == b.to_bits()) {
+        return Ok(bits(stored));
     }
+    if let Some(n) = &normalised {
+        if stored.iter().zip(n.iter()).all(|(a, b)| ulp_close(*a, *b, 8)) {
+            return Ok(bits(stored));
+        }
+    }
+    Err(format!("stored vector {:?} is neither the input {:?} (allowed: {}) nor its normalisation {:?}", stored, input, raw_ok, normalised))
 }
 
 #[derive(Clone, Debug, PartialEq, Eq, Serialize, Deserialize)]
